@@ -41,6 +41,7 @@ type ghostInfo struct {
 }
 
 type Exec struct {
+	nameOwner map[string]string
 	prog      *ssa.Program
 	pkgs      []*packages.Package
 	spkgs     map[string]*ssa.Package
@@ -301,9 +302,21 @@ func (x *Exec) safe(st *State, fr *Frame, kind string, pos token.Pos, goal *Term
 	x.oblige(st, name, "safe", kind+" at "+txt, pos, goal)
 }
 
+// targetName is the package-relative name of the function being verified; if a function of the same
+// name in another package was verified earlier in this run, the last path element of the package is
+// prefixed (obligation names must be unique per property).
 func (x *Exec) targetName() string {
 	if x.target.Pkg != nil {
-		return x.target.RelString(x.target.Pkg.Pkg)
+		rel := x.target.RelString(x.target.Pkg.Pkg)
+		pp := x.target.Pkg.Pkg.Path()
+		if x.nameOwner == nil {
+			x.nameOwner = map[string]string{}
+		}
+		if o, ok := x.nameOwner[rel]; ok && o != pp {
+			return pp[strings.LastIndex(pp, "/")+1:] + "." + rel
+		}
+		x.nameOwner[rel] = pp
+		return rel
 	}
 	return x.target.String()
 }
